@@ -401,6 +401,17 @@ func genProgram(rt *rapid.T, g *model.Graph) []model.Step {
 		steps = append(steps, body...)
 		steps = append(steps, inc, model.Step{Op: "jump", Args: []string{"m"}, Has: lt("$s.c", k), Emit: true})
 	}
+	if rapid.IntRange(0, 3).Draw(rt, "noSet") == 0 {
+		// the counter is created by increment() itself: no set() before the loop, so the
+		// marked element starts without the property (and, in these graphs, without any)
+		var kept []model.Step
+		for _, st := range steps {
+			if st.Op != "set" {
+				kept = append(kept, st)
+			}
+		}
+		steps = kept
+	}
 	switch rapid.IntRange(0, 4).Draw(rt, "tail") {
 	case 0:
 		steps = append(steps, S("count"))
